@@ -839,7 +839,7 @@ regurgitate_pfam_as_pfam(ESL_MSAFILE *afp, FILE *ofp, char *gapsym, int force_lo
 		}		  
 	      fprintf(ofp, "#=GC %.*s%*s%s\n", (int) taglen, tag, (int) (pos-taglen-5), "", buf);
 	    }
-	  else if (parse_gc_and_gr && esl_memstrpfx(p, n, "#=GR") == 0) 
+	  else if (parse_gc_and_gr && esl_memstrpfx(p, n, "#=GR")) 
 	    { 
 	      /* parse line into temporary strings */
 	      if (esl_memtok(&p, &n, " \t", &gx,      &gxlen)   != eslOK) ESL_XFAIL(eslEFORMAT, afp->errmsg, "--small parse failed (line %d): bad #=GR line", (int) afp->linenumber);
@@ -857,7 +857,7 @@ regurgitate_pfam_as_pfam(ESL_MSAFILE *afp, FILE *ofp, char *gapsym, int force_lo
 	      if      (exp_alen == -1)      exp_alen = textlen;
 	      else if (exp_alen != textlen) ESL_XFAIL(eslEFORMAT, afp->errmsg, "small mem parse failed (line %d): bad seq line, len %d, expected %d", (int) afp->linenumber, (int) textlen, (int) exp_alen);
 	
-	      if (esl_memstrcmp(tag, taglen, "SS") == 0) 
+	      if (esl_memstrcmp(tag, taglen, "SS")) 
 		{
 		  if      (wussify)  esl_kh2wuss(buf, buf);
 		  else if (dewuss)   esl_wuss2kh(buf, buf);
